@@ -15,15 +15,80 @@ use std::fmt;
 pub const CAP: usize = 8;
 const PRESIZE: usize = CAP;
 
+/// One slot. Normally the entry is stored inline; under `--cfg vcoll_boxed` it is boxed, which hides
+/// the niches of K/V from the layout of every type that contains a map (Kani 0.68 has an internal
+/// compiler error on enums whose discriminant lives in a `Vec` capacity niche, e.g.
+/// `Result<SessionBuilder<_>, GgrsError>`; only the builder build uses the boxed variant).
+#[cfg(not(vcoll_boxed))]
+#[derive(Clone)]
+pub struct Slot<K, V>(Option<(K, V)>);
+#[cfg(vcoll_boxed)]
+#[derive(Clone)]
+pub struct Slot<K, V>(Option<Box<(K, V)>>);
+
+impl<K, V> Slot<K, V> {
+    const EMPTY: Self = Slot(None);
+    fn is_none(&self) -> bool {
+        self.0.is_none()
+    }
+    #[cfg(not(vcoll_boxed))]
+    fn get(&self) -> Option<(&K, &V)> {
+        match &self.0 {
+            Some((k, v)) => Some((k, v)),
+            None => None,
+        }
+    }
+    #[cfg(vcoll_boxed)]
+    fn get(&self) -> Option<(&K, &V)> {
+        match &self.0 {
+            Some(b) => Some((&b.0, &b.1)),
+            None => None,
+        }
+    }
+    #[cfg(not(vcoll_boxed))]
+    fn get_mut(&mut self) -> Option<(&K, &mut V)> {
+        match &mut self.0 {
+            Some((k, v)) => Some((&*k, v)),
+            None => None,
+        }
+    }
+    #[cfg(vcoll_boxed)]
+    fn get_mut(&mut self) -> Option<(&K, &mut V)> {
+        match &mut self.0 {
+            Some(b) => {
+                let (k, v) = &mut **b;
+                Some((&*k, v))
+            }
+            None => None,
+        }
+    }
+    #[cfg(not(vcoll_boxed))]
+    fn put(&mut self, kv: (K, V)) -> Option<(K, V)> {
+        self.0.replace(kv)
+    }
+    #[cfg(vcoll_boxed)]
+    fn put(&mut self, kv: (K, V)) -> Option<(K, V)> {
+        self.0.replace(Box::new(kv)).map(|b| *b)
+    }
+    #[cfg(not(vcoll_boxed))]
+    fn take(&mut self) -> Option<(K, V)> {
+        self.0.take()
+    }
+    #[cfg(vcoll_boxed)]
+    fn take(&mut self) -> Option<(K, V)> {
+        self.0.take().map(|b| *b)
+    }
+}
+
 #[derive(Clone)]
 pub struct HashMap<K, V> {
-    slots: [Option<(K, V)>; CAP],
+    slots: [Slot<K, V>; CAP],
     count: usize,
 }
 
 impl<K, V> Default for HashMap<K, V> {
     fn default() -> Self {
-        Self { slots: [const { None }; CAP], count: 0 }
+        Self { slots: [const { Slot::EMPTY }; CAP], count: 0 }
     }
 }
 
@@ -55,7 +120,7 @@ fn permute<T>(v: &mut Vec<T>) {
 // ---------------------------------------------------------------- iterators (slot order)
 #[cfg(not(ggrs_verif_permute))]
 pub struct Iter<'a, K, V> {
-    slots: &'a [Option<(K, V)>; CAP],
+    slots: &'a [Slot<K, V>; CAP],
     i: usize,
 }
 #[cfg(not(ggrs_verif_permute))]
@@ -66,15 +131,15 @@ impl<'a, K, V> Iterator for Iter<'a, K, V> {
         while self.i < CAP {
             let j = self.i;
             self.i += 1;
-            if let Some((k, v)) = &self.slots[j] {
-                return Some((k, v));
+            if let Some(kv) = self.slots[j].get() {
+                return Some(kv);
             }
         }
         None
     }
 }
 #[cfg(not(ggrs_verif_permute))]
-pub struct ValuesMut<'a, K, V>(&'a mut [Option<(K, V)>]);
+pub struct ValuesMut<'a, K, V>(&'a mut [Slot<K, V>]);
 #[cfg(not(ggrs_verif_permute))]
 impl<'a, K, V> Iterator for ValuesMut<'a, K, V> {
     type Item = &'a mut V;
@@ -84,7 +149,7 @@ impl<'a, K, V> Iterator for ValuesMut<'a, K, V> {
             match rest.split_first_mut() {
                 Some((first, tail)) => {
                     self.0 = tail;
-                    if let Some((_, v)) = first {
+                    if let Some((_, v)) = first.get_mut() {
                         return Some(v);
                     }
                 }
@@ -130,14 +195,17 @@ impl<'a, K, V> Iterator for Values<'a, K, V> {
         self.0.next().map(|(_, v)| v)
     }
 }
-pub struct IntoIter<K, V>(std::vec::IntoIter<Option<(K, V)>>);
+pub struct IntoIter<K, V>(std::vec::IntoIter<Slot<K, V>>);
 impl<K, V> Iterator for IntoIter<K, V> {
     type Item = (K, V);
     fn next(&mut self) -> Option<(K, V)> {
         loop {
             match self.0.next() {
-                Some(Some(kv)) => return Some(kv),
-                Some(None) => {}
+                Some(mut slot) => {
+                    if let Some(kv) = slot.take() {
+                        return Some(kv);
+                    }
+                }
                 None => return None,
             }
         }
@@ -157,27 +225,22 @@ impl<K: PartialEq, V> HashMap<K, V> {
     pub fn clear(&mut self) {
         let mut i = 0;
         while i < CAP {
-            self.slots[i] = None;
+            self.slots[i].take();
             i += 1;
         }
         self.count = 0;
     }
     fn matches(&self, i: usize, k: &K) -> bool {
-        match &self.slots[i] {
+        match self.slots[i].get() {
             Some((kk, _)) => *kk == *k,
             None => false,
         }
     }
     pub fn insert(&mut self, k: K, v: V) -> Option<V> {
-        let mut kv = Some((k, v));
         let mut i = 0;
         while i < CAP {
-            let hit = match (&self.slots[i], &kv) {
-                (Some((kk, _)), Some((k, _))) => *kk == *k,
-                _ => false,
-            };
-            if hit {
-                return match std::mem::replace(&mut self.slots[i], kv.take()) {
+            if self.matches(i, &k) {
+                return match self.slots[i].put((k, v)) {
                     Some((_, old)) => Some(old),
                     None => None,
                 };
@@ -187,7 +250,7 @@ impl<K: PartialEq, V> HashMap<K, V> {
         let mut i = 0;
         while i < CAP {
             if self.slots[i].is_none() {
-                self.slots[i] = kv.take();
+                self.slots[i].put((k, v));
                 self.count += 1;
                 return None;
             }
@@ -198,7 +261,7 @@ impl<K: PartialEq, V> HashMap<K, V> {
     pub fn get(&self, k: &K) -> Option<&V> {
         let mut i = 0;
         while i < CAP {
-            if let Some((kk, v)) = &self.slots[i] {
+            if let Some((kk, v)) = self.slots[i].get() {
                 if *kk == *k {
                     return Some(v);
                 }
@@ -211,7 +274,7 @@ impl<K: PartialEq, V> HashMap<K, V> {
         let mut i = 0;
         while i < CAP {
             if self.matches(i, k) {
-                return match &mut self.slots[i] {
+                return match self.slots[i].get_mut() {
                     Some((_, v)) => Some(v),
                     None => None,
                 };
@@ -247,12 +310,12 @@ impl<K: PartialEq, V> HashMap<K, V> {
     pub fn retain<F: FnMut(&K, &mut V) -> bool>(&mut self, mut f: F) {
         let mut i = 0;
         while i < CAP {
-            let keep = match &mut self.slots[i] {
+            let keep = match self.slots[i].get_mut() {
                 Some((k, v)) => f(k, v),
                 None => true,
             };
             if !keep {
-                self.slots[i] = None;
+                self.slots[i].take();
                 self.count -= 1;
             }
             i += 1;
@@ -270,7 +333,7 @@ impl<K: PartialEq, V> HashMap<K, V> {
     pub fn iter(&self) -> Iter<'_, K, V> {
         let mut v: Vec<(&K, &V)> = Vec::with_capacity(PRESIZE);
         for s in self.slots.iter() {
-            if let Some((k, val)) = s {
+            if let Some((k, val)) = s.get() {
                 v.push((k, val));
             }
         }
@@ -281,7 +344,7 @@ impl<K: PartialEq, V> HashMap<K, V> {
     pub fn values_mut(&mut self) -> ValuesMut<'_, K, V> {
         let mut v: Vec<&mut V> = Vec::with_capacity(PRESIZE);
         for s in self.slots.iter_mut() {
-            if let Some((_, val)) = s {
+            if let Some((_, val)) = s.get_mut() {
                 v.push(val);
             }
         }
@@ -308,20 +371,22 @@ impl<'a, K: PartialEq, V> Entry<'a, K, V> {
         if !self.map.contains_key(&self.key) {
             let v = f();
             // insert cannot hit an existing key here
-            let mut kv = Some((self.key, v));
             let mut i = 0;
             while i < CAP {
                 if self.map.slots[i].is_none() {
-                    self.map.slots[i] = kv.take();
-                    self.map.count += 1;
-                    return match &mut self.map.slots[i] {
-                        Some((_, v)) => v,
-                        None => unreachable!(),
-                    };
+                    break;
                 }
                 i += 1;
             }
-            panic!("vcoll capacity exceeded");
+            if i == CAP {
+                panic!("vcoll capacity exceeded");
+            }
+            self.map.slots[i].put((self.key, v));
+            self.map.count += 1;
+            return match self.map.slots[i].get_mut() {
+                Some((_, v)) => v,
+                None => unreachable!(),
+            };
         }
         match self.map.get_mut(&self.key) {
             Some(v) => v,
@@ -347,7 +412,7 @@ impl<K: PartialEq, V> IntoIterator for HashMap<K, V> {
     type Item = (K, V);
     type IntoIter = IntoIter<K, V>;
     fn into_iter(self) -> Self::IntoIter {
-        let mut v: Vec<Option<(K, V)>> = Vec::with_capacity(CAP);
+        let mut v: Vec<Slot<K, V>> = Vec::with_capacity(CAP);
         for s in self.slots {
             v.push(s);
         }
@@ -412,7 +477,7 @@ impl<'a, K: Ord, V> Iterator for BIter<'a, K, V> {
         let mut best: Option<(&'a K, &'a V)> = None;
         let mut i = 0;
         while i < CAP {
-            if let Some((k, v)) = &self.map.slots[i] {
+            if let Some((k, v)) = self.map.slots[i].get() {
                 let after_last = match self.last {
                     Some(l) => *k > *l,
                     None => true,
